@@ -223,6 +223,11 @@ class Exec:
             raise AnchorMismatch(f"function {qualname} not found in {self.mi.path}")
         self.fn = self.mi.funcs[fname]
         self.fname = fname
+        for d in self.fn.decorator_list:
+            dn = ast.unparse(d)
+            if dn not in ("decoder", "registry.decoder", "property", "staticmethod"):
+                # a decorator changes what a call of the function does (caching, wrapping): outside the verified subset
+                raise Unsupported(f"decorator @{dn} on a function under contract")
         self.obligations: list[Obligation] = []
         self.loops = loops_in_order(self.fn)
         self.notes: list[str] = []
@@ -1201,6 +1206,28 @@ class Exec:
         for i, x in enumerate(items):
             arr = z3.Store(arr, i, x.z)
         return VList(arr, z3.IntVal(len(items)), ek)
+
+    def expr_Set(self, node, st):
+        vals = []
+        for e in node.elts:
+            if not isinstance(e, ast.Constant):
+                raise Unsupported("set display with non-constant elements")
+            vals.append(e.value)
+        return VPy(frozenset(vals), f"set-literal@L{getattr(node, 'lineno', 0)}")
+
+    def expr_Dict(self, node, st):
+        if all(isinstance(k, ast.Constant) and isinstance(v, ast.Constant) for k, v in zip(node.keys, node.values)):
+            return VPy({k.value: v.value for k, v in zip(node.keys, node.values)}, f"dict-literal@L{getattr(node, 'lineno', 0)}")
+        if all(isinstance(k, ast.Call) or isinstance(k, ast.Constant) for k in node.keys):
+            try:
+                d = {}
+                for k, v in zip(node.keys, node.values):
+                    kv, vv = self.eval(k, st), self.eval(v, st)
+                    d[int_const(kv.z)] = int_const(vv.z)
+                return VPy(d, f"dict-literal@L{getattr(node, 'lineno', 0)}")
+            except Exception:  # noqa: BLE001
+                pass
+        raise Unsupported("dict display")
 
     def expr_JoinedStr(self, node, st):
         return VStr(fresh("fstring", S))
